@@ -466,6 +466,35 @@ def sameNormalFormB (fuel : Nat) (q q' : Q) : Bool :=
   let b := (simplify fuel [] 0 (preSimp q')).1
   !hasBang a && !hasBang b && resolve [] a == resolve [] b
 
+/-- `simplify_chained_calls` run to completion: a second visit of its own result.  func_adl's single visit leaves
+some chains as written — `SelectMany(SelectMany(s, f), g)` becomes `SelectMany(s, x: SelectMany(f(x), g))` and `g` is
+not visited, so a `Select(Select(..))` inside `g` reaches the translator unfused.  The counter of generated names goes on
+from where the first visit stopped. -/
+def simplify2 (fuel : Nat) (q : Q) : Q :=
+  let a := simplify fuel [] 0 q
+  (simplify fuel [] a.2 a.1).1
+
+/-- The COMPLETED normal forms agree up to α although (possibly) the single-visit ones do not: the two queries differ
+only by chained steps that func_adl leaves for the translator to compose.  The property asks for the same package all
+the same ("whether chained Select/Where steps are written separately or already fused"). -/
+def sameNormalForm2B (fuel : Nat) (q q' : Q) : Bool :=
+  let a := simplify2 fuel (preSimp q)
+  let b := simplify2 fuel (preSimp q')
+  !hasBang a && !hasBang b && resolve [] a == resolve [] b
+
+mutual
+/-- a directly called lambda is left in the term (the translator would have to β-reduce it itself) -/
+def hasRedex : Q → Bool
+  | .var _ => false
+  | .lit _ => false
+  | .lam _ b => hasRedex b
+  | .app f as => isLam f || hasRedex f || hasRedexL as
+  | .node _ ks => hasRedexL ks
+def hasRedexL : List Q → Bool
+  | [] => false
+  | q :: qs => hasRedex q || hasRedexL qs
+end
+
 /-! ### global names: what the translator resolves outside the frame stack -/
 
 mutual
